@@ -54,6 +54,18 @@ pub open spec fn opt_lifted<'a>(parsed: Seq<ResourceRecord<'a>>, kept: Seq<Resou
             && kept == parsed.remove(i) && opt == Some(parsed[i].rdata->OPT_0)
     } else { kept == parsed && opt is None }
 }
+/// RFC 6891 6.1.3: the 12-bit response code = OPT TTL bits 24..31 (upper 8) and the header nibble (lower 4); without an OPT
+/// record the nibble alone.  (Nibbles 11..15 have no named RCODE: the crate maps them to Reserved = 17 before combining,
+/// see known finding D11; for nibbles 0..10 rcode_code(rcode_of_code(lo)) == lo and this is the RFC formula.)
+#[verifier::opaque]
+pub open spec fn rcode_join(ttl: u32, lo: u16) -> RCODE { rcode_of_code((((ttl >> 24u32) as u16) << 4u16) | rcode_code(rcode_of_code(lo))) }
+pub open spec fn rcode_lifted<'a>(parsed: Seq<ResourceRecord<'a>>, lo: u16, rc: RCODE) -> bool {
+    if exists|i: int| 0 <= i < parsed.len() && rdata_type(&(#[trigger] parsed[i]).rdata) == crate::TYPE::OPT {
+        exists|i: int| 0 <= i < parsed.len() && #[trigger] parsed[i].rdata is OPT
+            && (forall|j: int| 0 <= j < i ==> rdata_type(&(#[trigger] parsed[j]).rdata) != crate::TYPE::OPT)
+            && rc == rcode_join(parsed[i].ttl, lo)
+    } else { rc == rcode_of_code(lo) }
+}
 /// concatenated encodings of a section
 pub open spec fn seq_enc<'a, T: WireFormat<'a>>(vs: Seq<T>) -> Seq<u8>
     decreases vs.len()
@@ -186,6 +198,7 @@ pub proof fn lemma_hdr_rt(h: &Header, qd: u16, an: u16, ns: u16, ar: u16, d: Seq
         h.opcode == opcode_of_code((hdr_flags(d) >> 11) & 0xF),
         pf_bits(h.z_flags) == hdr_flags(d) & 0x87B0,
         hdr_flags(d) & 0x0040 == 0,
+        hdr_flags(d) & 0xF == rcode_code(h.response_code) & 0xF,
 {
     let e = hdr_enc(h, qd, an, ns, ar);
     let fl = hdr_flags_enc(h);
@@ -199,7 +212,8 @@ pub proof fn lemma_hdr_rt(h: &Header, qd: u16, an: u16, ns: u16, ar: u16, d: Seq
     assert(op <= 6 && rc <= 17);
     assert(((pf | (op << 11u16) | (rc & 0xFu16)) >> 11u16) & 0xFu16 == op
         && (pf | (op << 11u16) | (rc & 0xFu16)) & 0x87B0u16 == pf
-        && (pf | (op << 11u16) | (rc & 0xFu16)) & 0x0040u16 == 0) by(bit_vector)
+        && (pf | (op << 11u16) | (rc & 0xFu16)) & 0x0040u16 == 0
+        && (pf | (op << 11u16) | (rc & 0xFu16)) & 0xFu16 == rc & 0xFu16) by(bit_vector)
         requires pf & 0x87B0u16 == pf, op <= 6;
 }
 /// the OPT pseudo-record built by Header::opt_rr is canonical (its TTL carries the version it is parsed back with)
@@ -211,6 +225,222 @@ pub proof fn lemma_opt_ttl_version(rc: RCODE, ver: u8)
     assert(c <= 17);
     assert(((((c >> 4u32) << 24u32) | (v << 16u32)) >> 16u32) & 0xFFu32 == v) by(bit_vector) requires c <= 17, v <= 255;
 }
+/// encoding of the first n entries (opaque: the writer loops only need its three laws)
+#[verifier::opaque]
+pub open spec fn pref<'a, T: WireFormat<'a>>(vs: Seq<T>, n: int) -> Seq<u8> { seq_enc::<T>(vs.subrange(0, n)) }
+pub proof fn lemma_pref_0<'a, T: WireFormat<'a>>(vs: Seq<T>) ensures pref::<T>(vs, 0) == Seq::<u8>::empty()
+{ reveal(pref); assert(vs.subrange(0, 0) =~= Seq::<T>::empty()); }
+pub proof fn lemma_pref_step<'a, T: WireFormat<'a>>(vs: Seq<T>, i: int)
+    requires 0 <= i < vs.len() ensures pref::<T>(vs, i + 1) == pref::<T>(vs, i) + vs[i].wf_enc()
+{ reveal(pref); lemma_seq_enc_step::<T>(vs, i); }
+pub proof fn lemma_pref_full<'a, T: WireFormat<'a>>(vs: Seq<T>) ensures pref::<T>(vs, vs.len() as int) == seq_enc::<T>(vs)
+{ reveal(pref); assert(vs.subrange(0, vs.len() as int) =~= vs); }
+/// emission is cumulative: base + p emitted up to state b, then y up to state c
+pub proof fn lemma_wrote_step<W: ?Sized>(a: &W, b: &W, c: &W, base: Seq<u8>, p: Seq<u8>, y: Seq<u8>, p2: Seq<u8>)
+    requires wrote(a, b, base + p), wrote(b, c, y), p2 == p + y
+    ensures wrote(a, c, base + p2)
+{
+    assert(io_log(a) + (base + p) + y =~= io_log(a) + (base + (p + y)));
+    if at_end(a) { assert(io_buf(a) + (base + p) + y =~= io_buf(a) + (base + (p + y))); }
+}
+// ---- opaque progress predicates for the writer loops (keep sequence algebra out of the loop queries)
+#[verifier::opaque]
+pub open spec fn hdr12(b: Seq<u8>, e0: Seq<u8>) -> bool { b.len() >= 12 && b.subrange(0, 12) == e0 }
+pub proof fn lemma_hdr12_intro(b: Seq<u8>, e0: Seq<u8>) requires b == e0, e0.len() == 12 ensures hdr12(b, e0)
+{ reveal(hdr12); assert(b.subrange(0, 12) =~= e0); }
+pub proof fn lemma_hdr12_keep(b: Seq<u8>, b2: Seq<u8>, e0: Seq<u8>)
+    requires hdr12(b, e0), b2.len() >= b.len(), b2.subrange(0, b.len() as int) =~= b ensures hdr12(b2, e0)
+{
+    reveal(hdr12);
+    assert forall|j: int| 0 <= j < 12 implies b2[j] == b[j] by { assert(b2.subrange(0, b.len() as int)[j] == b[j]); }
+    assert(b2.subrange(0, 12) =~= b.subrange(0, 12));
+}
+pub proof fn lemma_hdr12_elim(b: Seq<u8>, e0: Seq<u8>) requires hdr12(b, e0) ensures b.len() >= 12, b.subrange(0, 12) == e0 { reveal(hdr12); }
+/// the first n entries of vs are decoded back-to-back from p0 to p1
+#[verifier::opaque]
+pub open spec fn chain_n<'a, T: WireFormat<'a>>(data: Seq<u8>, p0: int, vs: Seq<T>, n: int, p1: int) -> bool {
+    0 <= n <= vs.len() && chain::<T>(data, p0, vs.subrange(0, n), p1)
+}
+/// encoded size of the first n entries
+#[verifier::opaque]
+pub open spec fn enc_n<'a, T: WireFormat<'a>>(vs: Seq<T>, n: int) -> int { seq_enc::<T>(vs.subrange(0, n)).len() as int }
+pub proof fn lemma_chain_n_0<'a, T: WireFormat<'a>>(data: Seq<u8>, p0: int, vs: Seq<T>)
+    ensures chain_n::<T>(data, p0, vs, 0, p0), enc_n::<T>(vs, 0) == 0
+{ reveal(chain_n); reveal(enc_n); assert(vs.subrange(0, 0) =~= Seq::<T>::empty()); }
+pub proof fn lemma_chain_n_first<'a, T: WireFormat<'a>>(data: Seq<u8>, p0: int, vs: Seq<T>, n: int)
+    requires 0 <= n <= 1, n <= vs.len(), n == 0 ==> p0 == data.len(), n == 1 ==> p0 <= data.len() && T::wf_dec(data, p0, &vs[0], data.len() as int)
+    ensures chain_n::<T>(data, p0, vs, n, data.len() as int)
+{
+    reveal(chain_n);
+    if n == 0 { assert(vs.subrange(0, 0) =~= Seq::<T>::empty()); }
+    else {
+        let one = vs.subrange(0, 1);
+        assert(one.drop_last() =~= Seq::<T>::empty());
+        assert(chain::<T>(data, p0, one.drop_last(), p0));
+        assert(one.last() == vs[0]);
+    }
+}
+pub proof fn lemma_chain_n_full<'a, T: WireFormat<'a>>(data: Seq<u8>, p0: int, vs: Seq<T>, p1: int)
+    requires chain_n::<T>(data, p0, vs, vs.len() as int, p1)
+    ensures chain::<T>(data, p0, vs, p1), enc_n::<T>(vs, vs.len() as int) == seq_enc::<T>(vs).len()
+{ reveal(chain_n); reveal(enc_n); assert(vs.subrange(0, vs.len() as int) =~= vs); }
+pub proof fn lemma_enc_n_bound<'a, T: WireFormat<'a>>(vs: Seq<T>, i: int)
+    requires 0 <= i < vs.len()
+    ensures enc_n::<T>(vs, i + 1) == enc_n::<T>(vs, i) + vs[i].wf_enc().len(), enc_n::<T>(vs, i + 1) <= seq_enc::<T>(vs).len(), enc_n::<T>(vs, i) >= 0
+{ reveal(enc_n); lemma_seq_enc_step::<T>(vs, i); }
+pub proof fn lemma_seq_enc_one<'a, T: WireFormat<'a>>(v: T)
+    ensures seq_enc::<T>(seq![v]) == v.wf_enc()
+{
+    let s = seq![v];
+    assert(s.drop_last() =~= Seq::<T>::empty());
+    assert(s.last() == v);
+    assert(seq_enc::<T>(s.drop_last()) =~= Seq::<u8>::empty());
+    assert(seq_enc::<T>(s) =~= seq_enc::<T>(s.drop_last()) + s.last().wf_enc());
+    assert(seq_enc::<T>(s) =~= v.wf_enc());
+}
+pub proof fn lemma_enc_n_split<'a, T: WireFormat<'a>>(w0: Seq<T>, vs: Seq<T>)
+    ensures seq_enc::<T>(w0 + vs) == seq_enc::<T>(w0) + seq_enc::<T>(vs), enc_n::<T>(w0 + vs, w0.len() as int) == seq_enc::<T>(w0).len()
+    decreases vs.len()
+{
+    reveal(enc_n);
+    assert((w0 + vs).subrange(0, w0.len() as int) =~= w0);
+    if vs.len() == 0 { assert(w0 + vs =~= w0); assert(seq_enc::<T>(w0) + seq_enc::<T>(vs) =~= seq_enc::<T>(w0)); }
+    else {
+        lemma_enc_n_split::<T>(w0, vs.drop_last());
+        assert((w0 + vs).drop_last() =~= w0 + vs.drop_last());
+        assert((w0 + vs).last() == vs.last());
+        assert(seq_enc::<T>(w0 + vs) =~= seq_enc::<T>(w0) + seq_enc::<T>(vs));
+    }
+}
+pub proof fn lemma_chain_n_step_q<'a>(b: Seq<u8>, b2: Seq<u8>, p0: int, vs: Seq<Question<'a>>, i: int)
+    requires 0 <= p0 <= b.len(), 0 <= i < vs.len(), b2.len() >= b.len(), b2.subrange(0, b.len() as int) =~= b,
+             chain_n::<Question>(b, p0, vs, i, b.len() as int), Question::wf_dec(b2, b.len() as int, &vs[i], b2.len() as int)
+    ensures chain_n::<Question>(b2, p0, vs, i + 1, b2.len() as int)
+{ reveal(chain_n); lemma_step_q(b, b2, p0, vs, i); }
+pub proof fn lemma_chain_n_step_rr<'a>(b: Seq<u8>, b2: Seq<u8>, p0: int, vs: Seq<ResourceRecord<'a>>, i: int)
+    requires 0 <= p0 <= b.len(), 0 <= i < vs.len(), b2.len() >= b.len(), b2.subrange(0, b.len() as int) =~= b,
+             chain_n::<ResourceRecord>(b, p0, vs, i, b.len() as int), ResourceRecord::wf_dec(b2, b.len() as int, &vs[i], b2.len() as int)
+    ensures chain_n::<ResourceRecord>(b2, p0, vs, i + 1, b2.len() as int)
+{ reveal(chain_n); lemma_step_rr(b, b2, p0, vs, i); }
+/// two sections are observably equal: same length, entries pairwise wf_eqv
+pub open spec fn seq_eqv<'a, T: WireFormat<'a>>(a: Seq<T>, b: Seq<T>) -> bool {
+    a.len() == b.len() && forall|i: int| 0 <= i < a.len() ==> (#[trigger] a[i]).wf_eqv(&b[i])
+}
+/// a chain of n entries starting at p0 is determined by the bytes (decoder determinism lifted to sections)
+pub proof fn lemma_chain_det<'a, T: WireFormat<'a>>(data: Seq<u8>, p0: int, a: Seq<T>, e1: int, b: Seq<T>, e2: int)
+    requires chain::<T>(data, p0, a, e1), chain::<T>(data, p0, b, e2), a.len() == b.len()
+    ensures e1 == e2, seq_eqv::<T>(a, b)
+    decreases a.len()
+{
+    if a.len() > 0 {
+        let qa = choose|q: int| p0 <= q <= e1 && chain::<T>(data, p0, a.drop_last(), q) && #[trigger] T::wf_dec(data, q, &a.last(), e1);
+        let qb = choose|q: int| p0 <= q <= e2 && chain::<T>(data, p0, b.drop_last(), q) && #[trigger] T::wf_dec(data, q, &b.last(), e2);
+        lemma_chain_det::<T>(data, p0, a.drop_last(), qa, b.drop_last(), qb);
+        T::lemma_det(data, qa, &a.last(), e1, &b.last(), e2);
+        assert forall|i: int| 0 <= i < a.len() implies (#[trigger] a[i]).wf_eqv(&b[i]) by {
+            if i < a.len() - 1 { assert(a.drop_last()[i] == a[i] && b.drop_last()[i] == b[i]); }
+        }
+    }
+}
+/// observably equal records have the same record type (and are OPT records together)
+pub proof fn lemma_eqv_type(a: &ResourceRecord, b: &ResourceRecord)
+    requires a.wf_eqv(b)
+    ensures rdata_type(&a.rdata) == rdata_type(&b.rdata), (a.rdata is OPT) == (b.rdata is OPT),
+            a.rdata is OPT ==> (a.rdata->OPT_0).wf_eqv(&(b.rdata->OPT_0)),
+{}
+pub open spec fn opt_eqv(a: Option<crate::rdata::OPT>, b: Option<crate::rdata::OPT>) -> bool {
+    match (a, b) { (None, None) => true, (Some(x), Some(y)) => x.wf_eqv(&y), _ => false }
+}
+/// lifting the first OPT record out of observably equal additional sections gives observably equal results
+pub proof fn lemma_lift_det<'a>(add1: Seq<ResourceRecord<'a>>, add2: Seq<ResourceRecord<'a>>, k1: Seq<ResourceRecord<'a>>, k2: Seq<ResourceRecord<'a>>,
+        o1: Option<crate::rdata::OPT<'a>>, o2: Option<crate::rdata::OPT<'a>>, lo: u16, r1: RCODE, r2: RCODE)
+    requires seq_eqv::<ResourceRecord>(add1, add2), opt_lifted(add1, k1, o1), opt_lifted(add2, k2, o2),
+             rcode_lifted(add1, lo, r1), rcode_lifted(add2, lo, r2)
+    ensures seq_eqv::<ResourceRecord>(k1, k2), opt_eqv(o1, o2), r1 == r2
+{
+    assert forall|i: int| 0 <= i < add1.len() implies rdata_type(&(#[trigger] add1[i]).rdata) == rdata_type(&add2[i].rdata)
+        && (add1[i].rdata is OPT) == (add2[i].rdata is OPT) by { lemma_eqv_type(&add1[i], &add2[i]); }
+    if exists|i: int| 0 <= i < add1.len() && rdata_type(&(#[trigger] add1[i]).rdata) == crate::TYPE::OPT {
+        let w = choose|i: int| 0 <= i < add1.len() && rdata_type(&(#[trigger] add1[i]).rdata) == crate::TYPE::OPT;
+        assert(rdata_type(&add2[w].rdata) == crate::TYPE::OPT);
+        let i1 = choose|i: int| 0 <= i < add1.len() && #[trigger] add1[i].rdata is OPT
+            && (forall|j: int| 0 <= j < i ==> rdata_type(&(#[trigger] add1[j]).rdata) != crate::TYPE::OPT)
+            && k1 == add1.remove(i) && o1 == Some(add1[i].rdata->OPT_0);
+        let i2 = choose|i: int| 0 <= i < add2.len() && #[trigger] add2[i].rdata is OPT
+            && (forall|j: int| 0 <= j < i ==> rdata_type(&(#[trigger] add2[j]).rdata) != crate::TYPE::OPT)
+            && k2 == add2.remove(i) && o2 == Some(add2[i].rdata->OPT_0);
+        assert(rdata_type(&add1[i1].rdata) == crate::TYPE::OPT && rdata_type(&add2[i2].rdata) == crate::TYPE::OPT);
+        if i1 < i2 { assert(rdata_type(&add2[i1].rdata) != crate::TYPE::OPT); }
+        if i2 < i1 { assert(rdata_type(&add1[i2].rdata) != crate::TYPE::OPT); }
+        assert(i1 == i2);
+        lemma_eqv_type(&add1[i1], &add2[i1]);
+        assert forall|i: int| 0 <= i < k1.len() implies (#[trigger] k1[i]).wf_eqv(&k2[i]) by {
+            if i < i1 { assert(k1[i] == add1[i] && k2[i] == add2[i]); } else { assert(k1[i] == add1[i + 1] && k2[i] == add2[i + 1]); }
+        }
+        let j1 = choose|i: int| 0 <= i < add1.len() && #[trigger] add1[i].rdata is OPT
+            && (forall|j: int| 0 <= j < i ==> rdata_type(&(#[trigger] add1[j]).rdata) != crate::TYPE::OPT) && r1 == rcode_join(add1[i].ttl, lo);
+        let j2 = choose|i: int| 0 <= i < add2.len() && #[trigger] add2[i].rdata is OPT
+            && (forall|j: int| 0 <= j < i ==> rdata_type(&(#[trigger] add2[j]).rdata) != crate::TYPE::OPT) && r2 == rcode_join(add2[i].ttl, lo);
+        assert(rdata_type(&add1[j1].rdata) == crate::TYPE::OPT && rdata_type(&add2[j2].rdata) == crate::TYPE::OPT);
+        if j1 < i1 { assert(rdata_type(&add1[j1].rdata) != crate::TYPE::OPT); }
+        if i1 < j1 { assert(rdata_type(&add1[i1].rdata) != crate::TYPE::OPT); }
+        if j2 < i1 { assert(rdata_type(&add2[j2].rdata) != crate::TYPE::OPT); }
+        if i1 < j2 { assert(rdata_type(&add2[i1].rdata) != crate::TYPE::OPT); }
+        assert(j1 == i1 && j2 == i1);
+        assert(add1[i1].ttl == add2[i1].ttl);
+    } else {
+        assert forall|i: int| 0 <= i < add2.len() implies rdata_type(&(#[trigger] add2[i]).rdata) != crate::TYPE::OPT by {
+            assert(rdata_type(&add1[i].rdata) != crate::TYPE::OPT);
+        }
+    }
+}
+/// write side of the OPT lifting: [OPT pseudo-record] + additional records (none of them OPT) lifts back to exactly those
+pub proof fn lemma_lift_build<'a>(w0: Seq<ResourceRecord<'a>>, adds: Seq<ResourceRecord<'a>>, opt: Option<crate::rdata::OPT<'a>>, rc: RCODE)
+    requires
+        w0.len() == (if opt is Some { 1int } else { 0int }),
+        opt is Some ==> w0[0].rdata == crate::rdata::RData::OPT(opt.unwrap()) && w0[0].ttl == opt_ttl(rc, opt.unwrap().version),
+        opt is None ==> rcode_code(rc) < 16,
+        forall|i: int| 0 <= i < adds.len() ==> rdata_type(&(#[trigger] adds[i]).rdata) != crate::TYPE::OPT,
+    ensures
+        opt_lifted(w0 + adds, adds, opt),
+        rcode_lifted(w0 + adds, rcode_code(rc) & 0xF, rc),
+{
+    let add = w0 + adds;
+    if opt is Some {
+        assert(add[0] == w0[0]);
+        assert(add.remove(0) =~= adds);
+        assert(rdata_type(&add[0].rdata) == crate::TYPE::OPT);
+        assert(add[0].rdata is OPT);
+        lemma_rcode_with_opt(rc, opt.unwrap().version);
+        assert(opt_lifted(add, adds, opt));
+        assert(rcode_lifted(add, rcode_code(rc) & 0xF, rc));
+    } else {
+        assert(add =~= adds);
+        lemma_rcode_no_opt(rc);
+    }
+}
+/// the 12-bit response code written as header nibble + OPT TTL octet reads back as itself
+pub proof fn lemma_rcode_with_opt(rc: RCODE, ver: u8)
+    ensures rcode_join(opt_ttl(rc, ver), rcode_code(rc) & 0xF) == rc
+{
+    reveal(rcode_join);
+    let code = rcode_code(rc);
+    let t = opt_ttl(rc, ver);
+    let v = ver as u32;
+    assert(code <= 10 || code == 16 || code == 17);
+    assert((((t >> 24u32) as u16) << 4u16) | (code & 0xFu16) == code && (code & 0xFu16) <= 10) by(bit_vector)
+        requires t == ((code as u32 >> 4u32) << 24u32) | (v << 16u32), code <= 10 || code == 16 || code == 17, v <= 255;
+    let lo = code & 0xF;
+    assert(rcode_code(rcode_of_code(lo)) == lo);
+}
+/// without an OPT record only codes 0..15 survive (RFC 1035 4.1.1: RCODE is a 4-bit field)
+pub proof fn lemma_rcode_no_opt(rc: RCODE)
+    requires rcode_code(rc) < 16
+    ensures rcode_of_code(rcode_code(rc) & 0xF) == rc
+{
+    let code = rcode_code(rc);
+    assert(code & 0xFu16 == code) by(bit_vector) requires code < 16;
+}
 impl<'a> Packet<'a> {
     pub closed spec fn hdr(&self) -> Header<'a> { self.header }
     /// every entry reads back as itself; OPT data lives only in the header (never in additional_records)
@@ -219,6 +449,8 @@ impl<'a> Packet<'a> {
         &&& seq_canon::<ResourceRecord>(self.name_servers@) && seq_canon::<ResourceRecord>(self.additional_records@)
         &&& forall|i: int| 0 <= i < self.additional_records@.len() ==> rdata_type(&(#[trigger] self.additional_records@[i]).rdata) != crate::TYPE::OPT
         &&& self.pkt_enc().len() <= 65535
+        // a response code above 15 needs the OPT record to carry its upper bits (RFC 6891 6.1.3)
+        &&& (self.header.opt is None ==> rcode_code(self.header.response_code) < 16)
     }
     /// "assembled through the public constructors and within DNS size limits"
     pub closed spec fn pkt_ok(&self) -> bool {
@@ -238,6 +470,113 @@ impl<'a> Packet<'a> {
     pub closed spec fn dec(&self, data: Seq<u8>) -> bool {
         pkt_dec(data, self.questions@, self.answers@, self.name_servers@, self.additional_records@, &self.header)
     }
+    /// what the plain writer loops need of pkt_ok, behind one name
+    pub closed spec fn plain_ok(&self) -> bool {
+        &&& seq_ok::<Question>(self.questions@) && seq_ok::<ResourceRecord>(self.answers@)
+        &&& seq_ok::<ResourceRecord>(self.name_servers@) && seq_ok::<ResourceRecord>(self.additional_records@)
+    }
+    proof fn lemma_plain_ok(&self) requires self.pkt_ok() ensures self.plain_ok() {}
+    proof fn lemma_plain_entry(&self, k: int, i: int)
+        requires self.plain_ok(), 0 <= i
+        ensures
+            k == 0 && i < self.questions@.len() ==> self.questions@[i].wf_ok(),
+            k == 1 && i < self.answers@.len() ==> self.answers@[i].wf_ok(),
+            k == 2 && i < self.name_servers@.len() ==> self.name_servers@[i].wf_ok(),
+            k == 3 && i < self.additional_records@.len() ==> self.additional_records@[i].wf_ok(),
+    {}
+    /// what the writer loops need of pkt_ok / pkt_canon, behind one name
+    pub closed spec fn entries_ok(&self) -> bool {
+        &&& seq_ok::<Question>(self.questions@) && seq_ok::<ResourceRecord>(self.answers@)
+        &&& seq_ok::<ResourceRecord>(self.name_servers@) && seq_ok::<ResourceRecord>(self.additional_records@)
+        &&& seq_canon::<Question>(self.questions@) && seq_canon::<ResourceRecord>(self.answers@)
+        &&& seq_canon::<ResourceRecord>(self.name_servers@) && seq_canon::<ResourceRecord>(self.additional_records@)
+    }
+    proof fn lemma_limits(&self)
+        requires self.pkt_ok(), self.pkt_canon()
+        ensures self.entries_ok(), self.pkt_enc().len() <= 65535
+    {}
+    /// entry i of section k (0 questions, 1 answers, 2 authority, 3 additional) is within limits and canonical
+    proof fn lemma_entry(&self, k: int, i: int)
+        requires self.entries_ok(), 0 <= i
+        ensures
+            k == 0 && i < self.questions@.len() ==> self.questions@[i].wf_ok() && self.questions@[i].wf_canon(),
+            k == 1 && i < self.answers@.len() ==> self.answers@[i].wf_ok() && self.answers@[i].wf_canon(),
+            k == 2 && i < self.name_servers@.len() ==> self.name_servers@[i].wf_ok() && self.name_servers@[i].wf_canon(),
+            k == 3 && i < self.additional_records@.len() ==> self.additional_records@[i].wf_ok() && self.additional_records@[i].wf_canon(),
+    {}
+    /// the OPT pseudo-record built by Header::opt_rr: within limits, canonical, encodes as opt_rr_enc and reads back
+    proof fn lemma_opt_rr(&self, rr: &ResourceRecord<'a>, pre: Seq<u8>)
+        requires
+            self.pkt_ok(), self.header.opt is Some,
+            rr.name.lv() =~= Seq::<Seq<u8>>::empty(), rr.class == crate::CLASS::IN, rr.cache_flush == false,
+            rr.ttl == opt_ttl(self.header.response_code, self.header.opt.unwrap().version),
+            rr.rdata == crate::rdata::RData::OPT(self.header.opt.unwrap()),
+        ensures
+            rr.wf_ok(), rr.wf_enc() == opt_rr_enc(&self.header),
+            ResourceRecord::wf_dec(pre + rr.wf_enc(), pre.len() as int, rr, (pre + rr.wf_enc()).len() as int),
+    {
+        lemma_opt_ttl_version(self.header.response_code, self.header.opt.unwrap().version);
+        assert(rr.name.lv().len() == 0);
+        assert(wl(rr.name.lv()) == 0);
+        assert(rr.wf_ok());
+        assert(rr.wf_canon());
+        rr.lemma_rt(pre);
+        lemma_enc_be_len(rr.ttl as nat, 4);
+        assert(rr.wf_enc() =~= opt_rr_enc(&self.header)) by {
+            assert(run(rr.name.lv()) =~= Seq::<u8>::empty());
+            assert(name_enc(rr.name.lv()) =~= seq![0u8]);
+        }
+    }
+    /// observable equality of packets: header fields, EDNS data, sections
+    pub closed spec fn eqv(&self, other: &Self) -> bool {
+        &&& self.header.id == other.header.id && self.header.opcode == other.header.opcode
+        &&& self.header.response_code == other.header.response_code && pf_bits(self.header.z_flags) == pf_bits(other.header.z_flags)
+        &&& opt_eqv(self.header.opt, other.header.opt)
+        &&& seq_eqv::<Question>(self.questions@, other.questions@) && seq_eqv::<ResourceRecord>(self.answers@, other.answers@)
+        &&& seq_eqv::<ResourceRecord>(self.name_servers@, other.name_servers@)
+        &&& seq_eqv::<ResourceRecord>(self.additional_records@, other.additional_records@)
+    }
+    /// a message decodes to at most one packet (up to observable equality): Packet::parse is a function of the bytes,
+    /// so whatever it returns for bytes known to decode to `self` is observably equal to `self`
+    pub proof fn lemma_dec_det(&self, other: &Self, data: Seq<u8>)
+        requires self.dec(data), other.dec(data)
+        ensures self.eqv(other) // @C02:decoder-deterministic,C03:decoder-deterministic,C11:decoder-deterministic
+    {
+        let (a1, a2, a3, a4, aadd) = choose|p1: int, p2: int, p3: int, p4: int, add: Seq<ResourceRecord<'a>>|
+            #[trigger] pkt_dec_w(data, self.questions@, self.answers@, self.name_servers@, self.additional_records@, &self.header, p1, p2, p3, p4, add);
+        let (b1, b2, b3, b4, badd) = choose|p1: int, p2: int, p3: int, p4: int, add: Seq<ResourceRecord<'a>>|
+            #[trigger] pkt_dec_w(data, other.questions@, other.answers@, other.name_servers@, other.additional_records@, &other.header, p1, p2, p3, p4, add);
+        lemma_chain_det::<Question>(data, 12, self.questions@, a1, other.questions@, b1);
+        lemma_chain_det::<ResourceRecord>(data, a1, self.answers@, a2, other.answers@, b2);
+        lemma_chain_det::<ResourceRecord>(data, a2, self.name_servers@, a3, other.name_servers@, b3);
+        lemma_chain_det::<ResourceRecord>(data, a3, aadd, a4, badd, b4);
+        lemma_lift_det(aadd, badd, self.additional_records@, other.additional_records@, self.header.opt, other.header.opt,
+                       hdr_flags(data) & 0xF, self.header.response_code, other.header.response_code);
+    }
+    /// a message made of this packet's header, its sections as chains and the OPT pseudo-record (if any) first in the
+    /// additional section decodes to this packet
+    proof fn lemma_assemble(&self, m: Seq<u8>, p1: int, p2: int, p3: int, w0: Seq<ResourceRecord<'a>>)
+        requires
+            self.pkt_ok(), self.pkt_canon(), m.len() >= 12, 12 <= p1 <= p2 <= p3 <= m.len(),
+            m.subrange(0, 12) == hdr_enc(&self.hdr(), self.questions@.len() as u16, self.answers@.len() as u16, self.name_servers@.len() as u16,
+                (self.additional_records@.len() + if self.hdr().opt is Some { 1int } else { 0int }) as u16),
+            chain::<Question>(m, 12, self.questions@, p1),
+            chain::<ResourceRecord>(m, p1, self.answers@, p2),
+            chain::<ResourceRecord>(m, p2, self.name_servers@, p3),
+            chain::<ResourceRecord>(m, p3, w0 + self.additional_records@, m.len() as int),
+            w0.len() == (if self.hdr().opt is Some { 1int } else { 0int }),
+            self.hdr().opt is Some ==> w0[0].rdata == crate::rdata::RData::OPT(self.hdr().opt.unwrap())
+                && w0[0].ttl == opt_ttl(self.hdr().response_code, self.hdr().opt.unwrap().version),
+        ensures self.dec(m),
+    {
+        let add = w0 + self.additional_records@;
+        let h = &self.header;
+        lemma_hdr_rt(h, self.questions@.len() as u16, self.answers@.len() as u16, self.name_servers@.len() as u16,
+            (self.additional_records@.len() + if self.header.opt is Some { 1int } else { 0int }) as u16, m);
+        lemma_lift_build(w0, self.additional_records@, h.opt, h.response_code);
+        assert(pkt_dec_w(m, self.questions@, self.answers@, self.name_servers@, self.additional_records@, &self.header,
+                         p1, p2, p3, m.len() as int, add));
+    }
 }
 /// RFC 1035 4.1 message layout (witnesses: section boundaries p1..p4 and the additional section `add` as on the wire)
 pub open spec fn pkt_dec_w<'a>(data: Seq<u8>, qs: Seq<Question<'a>>, ans: Seq<ResourceRecord<'a>>, nss: Seq<ResourceRecord<'a>>,
@@ -253,6 +592,7 @@ pub open spec fn pkt_dec_w<'a>(data: Seq<u8>, qs: Seq<Question<'a>>, ans: Seq<Re
     &&& chain::<ResourceRecord>(data, p2, nss, p3)
     &&& chain::<ResourceRecord>(data, p3, add, p4)
     &&& opt_lifted(add, adds, h.opt)
+    &&& rcode_lifted(add, hdr_flags(data) & 0xF, h.response_code)
     &&& h.id == be16(data[0], data[1])
     &&& h.opcode == opcode_of_code((hdr_flags(data) >> 11) & 0xF)
     &&& pf_bits(h.z_flags) == hdr_flags(data) & 0x87B0
@@ -283,7 +623,7 @@ def apply(c):
     rel = 'dns/packet.rs'
     c.wrap(rel, "pub struct Packet<'a> {")
     c.append(rel, SPECS)
-    verified = ('parse', 'parse_section', 'write_to', 'write_header', 'write_compressed_to')
+    verified = ('parse', 'parse_section', 'write_to', 'write_header', 'write_compressed_to', 'build_bytes_vec', 'build_bytes_vec_compressed')
     for fn in list_fns(c, rel, P_IMPL):
         if fn not in verified:
             c.mark(rel, P_IMPL, fn, '#[verifier::external]')
@@ -364,6 +704,7 @@ def apply(c):
     c.ghost(rel, P_IMPL, 'parse', "Ok(Self {", """
         proof {
             assert(opt_lifted(vx_add, additional_records@, header.opt)); // @C09:opt-lifted,C05:additional-section-as-parsed,C11:opt-lifted
+            assert(rcode_lifted(vx_add, hdr_flags(data@) & 0xF, header.response_code)) by { reveal(rcode_join); } // @C09:rcode-recombined,C08:packet-rcode
             assert(pkt_dec_w(data@, questions@, answers@, name_servers@, additional_records@, &header, vx_p1, vx_p2, vx_p3, vx_p4, vx_add)); // @C05:sections-follow-counts-and-rdlength,C09:opt-lifted
         }
 """, where='before')
@@ -373,7 +714,6 @@ def apply(c):
         ensures r is Ok ==> wrote(old(out), final(out), hdr_enc(&self.header, self.questions@.len() as u16, self.answers@.len() as u16,
             self.name_servers@.len() as u16, (self.additional_records@.len() + if self.header.opt is Some { 1int } else { 0int }) as u16)), // @C04:header-counts,C09:arcount-includes-opt
 """)
-    c.mark(rel, P_IMPL, 'write_to', '#[verifier::rlimit(50)]')
     c.contract(rel, P_IMPL, 'write_to', """
         requires self.pkt_ok(),
         ensures r is Ok ==> wrote(old(out), final(out), self.pkt_enc()), // @C04:exactly-the-entries,C02:packet-encoding,C09:one-opt-record
@@ -384,32 +724,68 @@ def apply(c):
         let ghost e2 = e1 + seq_enc::<ResourceRecord>(self.answers@);
         let ghost e3 = e2 + seq_enc::<ResourceRecord>(self.name_servers@);
         let ghost e4 = e3 + opt_rr_enc(&self.header);
+        let ghost vx_o0 = *out;
+        proof { self.lemma_plain_ok(); }
 """)
+    # loops carry the opaque prefix encoding pref(vs, i): one lemma call per iteration, no sequence algebra in the loop query
     def loop(k, field, ty, base):
         c.loop_spec(rel, P_IMPL, 'write_to', k, """
-            invariant self.pkt_ok(), 0 <= vx_it%d.index@ <= self.%s@.len(),
-                wrote(old(out), out, %s + seq_enc::<%s>(self.%s@.subrange(0, vx_it%d.index@ as int))),
+            invariant self.plain_ok(), 0 <= vx_it%d.index@ <= self.%s@.len(),
+                wrote(&vx_o0, out, %s + pref::<%s>(self.%s@, vx_it%d.index@ as int)),
 """ % (k, field, base, ty, field, k), iter_name='vx_it%d' % k, body_pre="""
+            let ghost vx_prev = *out;
+            let ghost vx_i = vx_it%d.index@ as int;
+            proof { self.lemma_plain_entry(%d, vx_i); }
+""" % (k, k))
+        c.ghost(rel, P_IMPL, 'write_to', "e.write_to(out)?;", """
             proof {
-                let i = vx_it%d.index@ as int;
-                assert(self.%s@.subrange(0, i + 1).drop_last() =~= self.%s@.subrange(0, i));
-                assert(self.%s@.subrange(0, i + 1).last() == self.%s@[i]);
+                lemma_pref_step::<%s>(self.%s@, vx_i);
+                lemma_wrote_step(&vx_o0, &vx_prev, out, %s, pref::<%s>(self.%s@, vx_i), e.wf_enc(), pref::<%s>(self.%s@, vx_i + 1));
             }
-""" % (k, field, field, field, field))
-    c.ghost(rel, P_IMPL, 'write_to', "for e in &self.questions", "        proof { assert(self.questions@.subrange(0, 0) =~= Seq::<Question>::empty()); }", where='before')
-    c.ghost(rel, P_IMPL, 'write_to', "for e in &self.answers", "        proof { assert(self.questions@.subrange(0, self.questions@.len() as int) =~= self.questions@); assert(self.answers@.subrange(0, 0) =~= Seq::<ResourceRecord>::empty()); }", where='before')
-    c.ghost(rel, P_IMPL, 'write_to', "for e in &self.name_servers", "        proof { assert(self.answers@.subrange(0, self.answers@.len() as int) =~= self.answers@); assert(self.name_servers@.subrange(0, 0) =~= Seq::<ResourceRecord>::empty()); }", where='before')
-    c.ghost(rel, P_IMPL, 'write_to', "if let Some(rr) = self.header.opt_rr()", "        proof { assert(self.name_servers@.subrange(0, self.name_servers@.len() as int) =~= self.name_servers@); }", where='before')
-    c.ghost(rel, P_IMPL, 'write_to', "for e in &self.additional_records", "        proof { assert(self.additional_records@.subrange(0, 0) =~= Seq::<ResourceRecord>::empty()); }", where='before')
-    c.ghost(rel, P_IMPL, 'write_to', "out.flush()?;", "        proof { assert(self.additional_records@.subrange(0, self.additional_records@.len() as int) =~= self.additional_records@); }", where='before')
+""" % (ty, field, base, ty, field, ty, field), where='after', occurrence=k)
+    def boundary(anchor, prev, ty_prev, nxt, ty_next, extra=''):
+        txt = "        proof {"
+        if prev:
+            txt += " lemma_pref_full::<%s>(self.%s@);" % (ty_prev, prev)
+        if nxt:
+            txt += " lemma_pref_0::<%s>(self.%s@);" % (ty_next, nxt)
+        txt += extra + " }"
+        c.ghost(rel, P_IMPL, 'write_to', anchor, txt, where='before')
+    boundary("for e in &self.questions", None, None, 'questions', 'Question', " assert(e0 + Seq::<u8>::empty() =~= e0);")
+    boundary("for e in &self.answers", 'questions', 'Question', 'answers', 'ResourceRecord', " assert(e1 + Seq::<u8>::empty() =~= e1);")
+    boundary("for e in &self.name_servers", 'answers', 'ResourceRecord', 'name_servers', 'ResourceRecord', " assert(e2 + Seq::<u8>::empty() =~= e2);")
+    boundary("if let Some(rr) = self.header.opt_rr()", 'name_servers', 'ResourceRecord', None, None)
+    c.ghost(rel, P_IMPL, 'write_to', "rr.write_to(out)?;", """
+            let ghost vx_prev = *out;
+            proof { self.lemma_opt_rr(&rr, Seq::empty()); }
+""", where='before')
+    c.ghost(rel, P_IMPL, 'write_to', "rr.write_to(out)?;", """
+            proof { lemma_wrote_step(&vx_o0, &vx_prev, out, e3, Seq::empty(), rr.wf_enc(), opt_rr_enc(&self.header)); assert(e3 + Seq::<u8>::empty() =~= e3); }
+""", where='after')
+    boundary("for e in &self.additional_records", None, None, 'additional_records', 'ResourceRecord',
+             " assert(e4 + Seq::<u8>::empty() =~= e4); if self.header.opt is None { assert(e3 + opt_rr_enc(&self.header) =~= e3); }")
+    boundary("out.flush()?;", 'additional_records', 'ResourceRecord', None, None)
     loop(0, 'questions', 'Question', 'e0')
     loop(1, 'answers', 'ResourceRecord', 'e1')
     loop(2, 'name_servers', 'ResourceRecord', 'e2')
     loop(3, 'additional_records', 'ResourceRecord', 'e4')
+    # ---- vector-returning entry points: same bytes as the writer-based ones (the same spec function / relation)
+    c.contract(rel, P_IMPL, 'build_bytes_vec', """
+        requires self.pkt_ok(),
+        ensures r is Ok ==> r.unwrap()@ == self.pkt_enc(), // @C04:vec-and-writer-agree,C02:packet-encoding
+""", pre_body="\n        broadcast use crate::vx::axiom_cursor_vec;\n")
+    c.ghost(rel, P_IMPL, 'build_bytes_vec', "self.write_to(&mut out)?;", "        let ghost vx_o0 = out;\n        proof { assert(at_end(&vx_o0)); }", where='before')
+    c.ghost(rel, P_IMPL, 'build_bytes_vec', "self.write_to(&mut out)?;", "        proof { assert(io_buf(&out) =~= self.pkt_enc()); }", where='after')
+    c.contract(rel, P_IMPL, 'build_bytes_vec_compressed', """
+        requires self.pkt_ok(), self.pkt_canon(),
+        ensures
+            r is Ok ==> self.dec(r.unwrap()@), // @C04:vec-and-writer-agree,C03:compressed-message-decodes-to-the-packet
+            r is Ok ==> r.unwrap()@.len() <= self.pkt_enc().len(), // @C03:never-longer
+""", pre_body="\n        broadcast use crate::vx::axiom_cursor_vec;\n")
     # ---- write_compressed_to: the whole message decodes to this packet (C03), is framed by the header counts (C04),
     #      carries the OPT record once (C09) and is never longer than the plain encoding
     W = 'write_compressed_to'
-    c.mark(rel, P_IMPL, W, '#[verifier::rlimit(60)]')
+    c.mark(rel, P_IMPL, W, '#[verifier::rlimit(30)]')
     c.contract(rel, P_IMPL, W, """
         requires self.pkt_ok(), self.pkt_canon(), io_buf(old(out)).len() == 0, io_pos(old(out)) == 0,
         ensures
@@ -427,6 +803,7 @@ def apply(c):
         proof {
             assert(e0.len() == 12);
             assert(self.pkt_enc().len() == 12 + lq + la + ln + lo + lx);
+            self.lemma_limits();
         }
 """)
     c.ghost(rel, P_IMPL, W, "let mut name_refs = HashMap::new();", """
@@ -434,72 +811,67 @@ def apply(c):
             broadcast use crate::dns::name::axiom_label_slice_key_model;
             lemma_refs_empty(name_refs@, io_buf(out));
             assert(io_buf(out) =~= e0);
-            assert(io_buf(out).subrange(0, 12) =~= e0);
-            assert(self.questions@.subrange(0, 0) =~= Seq::<Question>::empty());
+            lemma_hdr12_intro(io_buf(out), e0);
+            lemma_chain_n_0::<Question>(io_buf(out), 12, self.questions@);
         }
 """, where='after')
-    COMMON = """self.pkt_ok(), self.pkt_canon(), at_end(out), refs_ok(name_refs@, io_buf(out)),
-                e0.len() == 12, io_buf(out).len() >= 12, io_buf(out).subrange(0, 12) =~= e0,
-                self.pkt_enc().len() == 12 + lq + la + ln + lo + lx,
+    # the loops carry only opaque progress predicates (chain_n / enc_n / hdr12): no sequence algebra in the loop queries
+    COMMON = """self.entries_ok(), at_end(out), refs_ok(name_refs@, io_buf(out)), hdr12(io_buf(out), e0),
+                12 + lq + la + ln + lo + lx <= 65535, io_buf(out).len() >= 12, lo == opt_rr_enc(&self.header).len(),
                 lq == seq_enc::<Question>(self.questions@).len(), la == seq_enc::<ResourceRecord>(self.answers@).len(),
                 ln == seq_enc::<ResourceRecord>(self.name_servers@).len(), lx == seq_enc::<ResourceRecord>(self.additional_records@).len(),"""
-    def cloop(k, field, ty, base, keep_inv, keep_proof, step, extra_inv=''):
+    def cloop(k, vs, ty, base, p0, keep_inv, keep_proof, off='', field=None):
+        field = field or vs
+        step = 'lemma_chain_n_step_q' if ty == 'Question' else 'lemma_chain_n_step_rr'
         c.loop_spec(rel, P_IMPL, W, k, """
             invariant %s
-                0 <= vx_c%d.index@ <= self.%s@.len(),
-                io_buf(out).len() <= %s + seq_enc::<%s>(self.%s@.subrange(0, vx_c%d.index@ as int)).len(),
+                0 <= vx_c%d.index@ <= %s.len(),
+                io_buf(out).len() <= %s + enc_n::<%s>(%s, %svx_c%d.index@ as int),
+                chain_n::<%s>(io_buf(out), %s, %s, %svx_c%d.index@ as int, io_buf(out).len() as int),
                 %s
-                %s
-""" % (COMMON, k, field, base, ty, field, k, keep_inv, extra_inv), iter_name='vx_c%d' % k, body_pre="""
+""" % (COMMON, k, field, base, ty, vs, off, k, ty, p0, vs, off, k, keep_inv), iter_name='vx_c%d' % k, body_pre="""
             broadcast use crate::dns::name::axiom_label_slice_key_model;
             let ghost vx_b = io_buf(out);
-            let ghost vx_i = vx_c%d.index@ as int;
-            proof { lemma_seq_enc_step::<%s>(self.%s@, vx_i); }
-""" % (k, ty, field))
+            let ghost vx_i = %svx_c%d.index@ as int;
+            proof { self.lemma_entry(%d, vx_c%d.index@ as int); lemma_enc_n_bound::<%s>(%s, vx_i); }
+""" % (off, k, k, k, ty, vs))
         c.ghost(rel, P_IMPL, W, "e.write_compressed_to(out, &mut name_refs)?;", """
             proof {
                 let b2 = io_buf(out);
-                assert(b2.subrange(0, 12) =~= e0) by { assert forall|j: int| 0 <= j < 12 implies b2[j] == vx_b[j] by { assert(b2.subrange(0, vx_b.len() as int)[j] == vx_b[j]); } }
+                lemma_hdr12_keep(vx_b, b2, e0);
                 %s
-                %s
+                %s(vx_b, b2, %s, %s, vx_i);
             }
-""" % (keep_proof, step), where='after', occurrence=k)
-    cloop(0, 'questions', 'Question', '12', '', '',
-          'lemma_step_q(vx_b, b2, 12, self.questions@, vx_i);',
-          'chain::<Question>(io_buf(out), 12, self.questions@.subrange(0, vx_c0.index@ as int), io_buf(out).len() as int),')
+""" % (keep_proof, step, p0, vs), where='after', occurrence=k)
+    cloop(0, 'self.questions@', 'Question', '12', '12', '', '')
     KQ = 'chain::<Question>(io_buf(out), 12, self.questions@, vx_p1), 12 <= vx_p1 <= io_buf(out).len(),'
     PQ = 'lemma_keep_q(vx_b, b2, 12, self.questions@, vx_p1);'
-    cloop(1, 'answers', 'ResourceRecord', '12 + lq', KQ, PQ,
-          'lemma_step_rr(vx_b, b2, vx_p1, self.answers@, vx_i);',
-          'chain::<ResourceRecord>(io_buf(out), vx_p1, self.answers@.subrange(0, vx_c1.index@ as int), io_buf(out).len() as int),')
+    cloop(1, 'self.answers@', 'ResourceRecord', '12 + lq', 'vx_p1', KQ, PQ)
     KA = KQ + ' chain::<ResourceRecord>(io_buf(out), vx_p1, self.answers@, vx_p2), vx_p1 <= vx_p2 <= io_buf(out).len(),'
     PA = PQ + ' lemma_keep_rr(vx_b, b2, vx_p1, self.answers@, vx_p2);'
-    cloop(2, 'name_servers', 'ResourceRecord', '12 + lq + la', KA, PA,
-          'lemma_step_rr(vx_b, b2, vx_p2, self.name_servers@, vx_i);',
-          'chain::<ResourceRecord>(io_buf(out), vx_p2, self.name_servers@.subrange(0, vx_c2.index@ as int), io_buf(out).len() as int),')
+    cloop(2, 'self.name_servers@', 'ResourceRecord', '12 + lq + la', 'vx_p2', KA, PA)
     KN = KA + ' chain::<ResourceRecord>(io_buf(out), vx_p2, self.name_servers@, vx_p3), vx_p2 <= vx_p3 <= io_buf(out).len(),'
     PN = PA + ' lemma_keep_rr(vx_b, b2, vx_p2, self.name_servers@, vx_p3);'
-    cloop(3, 'additional_records', 'ResourceRecord', '12 + lq + la + ln + lo', KN, PN,
-          """assert((vx_w0 + self.additional_records@).subrange(0, vx_w0.len() + vx_i) =~= vx_w0 + self.additional_records@.subrange(0, vx_i));
-                assert((vx_w0 + self.additional_records@).subrange(0, vx_w0.len() + vx_i + 1) =~= vx_w0 + self.additional_records@.subrange(0, vx_i + 1));
-                assert((vx_w0 + self.additional_records@)[vx_w0.len() + vx_i] == self.additional_records@[vx_i]);
-                lemma_step_rr(vx_b, b2, vx_p3, vx_w0 + self.additional_records@, vx_w0.len() + vx_i);""",
-          """vx_w0.len() == (if self.header.opt is Some { 1int } else { 0int }), lo == opt_rr_enc(&self.header).len(), // @C09:one-opt-record,C04:opt-record-counted-and-written-once,C03:opt-record
-                self.header.opt is Some ==> vx_w0.len() == 1 && vx_w0[0].rdata == crate::rdata::RData::OPT(self.header.opt.unwrap()), // @C09:one-opt-record,C04:opt-record-counted-and-written-once,C03:opt-record
-                chain::<ResourceRecord>(io_buf(out), vx_p3, vx_w0 + self.additional_records@.subrange(0, vx_c3.index@ as int), io_buf(out).len() as int),""")
+    KX = KN + """
+                vx_all == vx_w0 + self.additional_records@, vx_w0.len() == (if self.header.opt is Some { 1int } else { 0int }), // @C09:one-opt-record,C04:opt-record-counted-and-written-once,C03:opt-record
+                lo == opt_rr_enc(&self.header).len(), seq_enc::<ResourceRecord>(vx_all).len() == lo + lx,
+                self.header.opt is Some ==> vx_w0[0].rdata == crate::rdata::RData::OPT(self.header.opt.unwrap())
+                    && vx_w0[0].ttl == opt_ttl(self.header.response_code, self.header.opt.unwrap().version), // @C09:one-opt-record,C04:opt-record-counted-and-written-once,C03:opt-record"""
+    cloop(3, 'vx_all', 'ResourceRecord', '12 + lq + la + ln', 'vx_p3', KX,
+          PN + ' assert(vx_all[vx_i] == self.additional_records@[vx_i - vx_w0.len()]);', off='vx_w0.len() + ', field='self.additional_records@')
     # section boundaries
     c.ghost(rel, P_IMPL, W, "for e in vx_c1: &self.answers", """
         let ghost vx_p1 = io_buf(out).len() as int;
         proof {
-            assert(self.questions@.subrange(0, self.questions@.len() as int) =~= self.questions@);
-            assert(self.answers@.subrange(0, 0) =~= Seq::<ResourceRecord>::empty());
+            lemma_chain_n_full::<Question>(io_buf(out), 12, self.questions@, vx_p1);
+            lemma_chain_n_0::<ResourceRecord>(io_buf(out), vx_p1, self.answers@);
         }
 """, where='before')
     c.ghost(rel, P_IMPL, W, "for e in vx_c2: &self.name_servers", """
         let ghost vx_p2 = io_buf(out).len() as int;
         proof {
-            assert(self.answers@.subrange(0, self.answers@.len() as int) =~= self.answers@);
-            assert(self.name_servers@.subrange(0, 0) =~= Seq::<ResourceRecord>::empty());
+            lemma_chain_n_full::<ResourceRecord>(io_buf(out), vx_p1, self.answers@, vx_p2);
+            lemma_chain_n_0::<ResourceRecord>(io_buf(out), vx_p2, self.name_servers@);
         }
 """, where='before')
     jb_w, be_w = c.body(rel, P_IMPL, W)
@@ -508,31 +880,15 @@ def apply(c):
         let ghost vx_p3 = io_buf(out).len() as int;
         let ghost mut vx_w0: Seq<ResourceRecord> = Seq::empty();
         proof {
-            assert(self.name_servers@.subrange(0, self.name_servers@.len() as int) =~= self.name_servers@);
+            lemma_chain_n_full::<ResourceRecord>(io_buf(out), vx_p2, self.name_servers@, vx_p3);
         }
 """
     if has_opt_block:
-        c.ghost(rel, P_IMPL, W, "if let Some(rr) = self.header.opt_rr() {", """
-            let ghost vx_p3 = io_buf(out).len() as int;
-            let ghost mut vx_w0: Seq<ResourceRecord> = Seq::empty();
-            proof {
-                assert(self.name_servers@.subrange(0, self.name_servers@.len() as int) =~= self.name_servers@);
-            }
-    """, where='before')
+        c.ghost(rel, P_IMPL, W, "if let Some(rr) = self.header.opt_rr() {", P3DECL, where='before')
         c.ghost(rel, P_IMPL, W, "rr.write_to(out)?;", """
                 let ghost vx_bo = io_buf(out);
                 proof {
-                    lemma_opt_ttl_version(self.header.response_code, self.header.opt.unwrap().version);
-                    assert(rr.name.lv().len() == 0);
-                    assert(wl(rr.name.lv()) == 0);
-                    assert(rr.wf_ok());
-                    assert(rr.wf_canon());
-                    rr.lemma_rt(vx_bo);
-                    lemma_enc_be_len(rr.ttl as nat, 4);
-                    assert(rr.wf_enc() =~= opt_rr_enc(&self.header)) by {
-                        assert(run(rr.name.lv()) =~= Seq::<u8>::empty());
-                        assert(name_enc(rr.name.lv()) =~= seq![0u8]);
-                    }
+                    self.lemma_opt_rr(&rr, vx_bo);
                     lemma_refs_append(name_refs@, vx_bo, rr.wf_enc());
                 }
     """, where='before')
@@ -541,48 +897,31 @@ def apply(c):
                     let b2 = io_buf(out);
                     assert(b2 =~= vx_bo + rr.wf_enc());
                     vx_w0 = seq![rr];
-                    assert(b2.subrange(0, 12) =~= e0);
+                    assert(ResourceRecord::wf_dec(b2, vx_p3, &vx_w0[0], b2.len() as int));
+                    lemma_seq_enc_one::<ResourceRecord>(rr);
+                    lemma_hdr12_keep(vx_bo, b2, e0);
                     lemma_keep_q(vx_bo, b2, 12, self.questions@, vx_p1);
                     lemma_keep_rr(vx_bo, b2, vx_p1, self.answers@, vx_p2);
                     lemma_keep_rr(vx_bo, b2, vx_p2, self.name_servers@, vx_p3);
-                    assert(vx_w0.drop_last() =~= Seq::<ResourceRecord>::empty());
-                    assert(chain::<ResourceRecord>(b2, vx_p3, vx_w0.drop_last(), vx_p3));
-                    assert(vx_w0.last() == rr);
-                    assert(vx_p3 == vx_bo.len());
-                    assert(ResourceRecord::wf_dec(b2, vx_p3, &vx_w0.last(), b2.len() as int));
-                    assert(chain::<ResourceRecord>(b2, vx_p3, vx_w0, b2.len() as int));
                 }
     """, where='after')
-
     else:
         # the OPT block is optional for anchoring purposes: without it the contract is still spliced and the final
         # obligation (ARCOUNT / one OPT record) decides
         c.ghost(rel, P_IMPL, W, "for e in vx_c3: &self.additional_records", P3DECL, where='before')
     c.ghost(rel, P_IMPL, W, "for e in vx_c3: &self.additional_records", """
+        let ghost vx_all = vx_w0 + self.additional_records@;
         proof {
-            assert(self.additional_records@.subrange(0, 0) =~= Seq::<ResourceRecord>::empty());
-            assert(vx_w0 + Seq::<ResourceRecord>::empty() =~= vx_w0);
-            if self.header.opt is None { assert(chain::<ResourceRecord>(io_buf(out), vx_p3, vx_w0, vx_p3)); }
+            lemma_enc_n_split::<ResourceRecord>(vx_w0, self.additional_records@);
+            if self.header.opt is Some { assert(vx_all[0] == vx_w0[0]); } else { assert(lo == 0); assert(seq_enc::<ResourceRecord>(vx_w0).len() == 0); }
+            lemma_chain_n_first::<ResourceRecord>(io_buf(out), vx_p3, vx_all, vx_w0.len() as int);
         }
 """, where='before')
     c.ghost(rel, P_IMPL, W, "out.flush()?;", """
         proof {
-            let m = io_buf(out);
-            let add = vx_w0 + self.additional_records@;
-            assert(self.additional_records@.subrange(0, self.additional_records@.len() as int) =~= self.additional_records@);
-            lemma_hdr_rt(&self.header, self.questions@.len() as u16, self.answers@.len() as u16, self.name_servers@.len() as u16,
-                (self.additional_records@.len() + if self.header.opt is Some { 1int } else { 0int }) as u16, m);
-            assert(opt_lifted(add, self.additional_records@, self.header.opt)) by {
-                if self.header.opt is Some {
-                    assert(add[0] == vx_w0[0]);
-                    assert(add.remove(0) =~= self.additional_records@);
-                    assert(rdata_type(&add[0].rdata) == crate::TYPE::OPT);
-                } else {
-                    assert(add =~= self.additional_records@);
-                }
-            }
-            assert(pkt_dec_w(m, self.questions@, self.answers@, self.name_servers@, self.additional_records@, &self.header,
-                             vx_p1, vx_p2, vx_p3, m.len() as int, add));
+            lemma_chain_n_full::<ResourceRecord>(io_buf(out), vx_p3, vx_all, io_buf(out).len() as int);
+            lemma_hdr12_elim(io_buf(out), e0);
+            self.lemma_assemble(io_buf(out), vx_p1, vx_p2, vx_p3, vx_w0);
         }
 """, where='before')
     c.wrap(rel, P_IMPL)
